@@ -7,6 +7,7 @@ EXPLANATION = ("R-ORDER push-before-wake and Ok-only-after-push in the three cha
                "acquired permit, R-SLOT register-then-recheck of the receivers, R-TYPE (compile-fail witnesses with compiling twins) "
                "the single-consumer/single-producer endpoints are !Sync and !Clone, R-WHO the consumer side of the inner queues is "
                "reachable only from the Receiver")
+EXPLANATION_2 = ('channel bookkeeping (endpoint counters start at 1, clone/drop add/sub 1, port_dropped flag, send fails only without receiver, mpmc last sender - and only it - posts the disconnect permit, every push followed by a permit), spsc Blocker tag agreement, taken waiter is unparked')
 NOT_DECIDED = "exactly-once and order of delivery over interleavings (reduce to C03 plus schedules)"
 CONFIGS_QUICK = ["default"]
 NEEDS_TARGET = True
